@@ -1,4 +1,6 @@
+pub mod graphs;
 pub mod iso;
 pub mod refiri;
 pub mod refnq;
+pub mod refrdfc;
 pub mod terms;
